@@ -671,6 +671,18 @@ class NetCDFWrite(IOWrite):
         # netCDF dimensions that is not in the same group nor a parent
         # group.
         if already_in_file and not create:
+            ncdims = seen[id(coord)]["ncdims"]
+            if ncdims and ncdims[0] in g["axis_to_ncdim"].values():
+                # The netCDF dimension of the equal coordinate
+                # variable already in the file is in use by another
+                # axis of this field (two axes have equal dimension
+                # coordinates). A netCDF variable must not span the
+                # same dimension twice (CF section 2.4), so this axis
+                # needs a dimension and a coordinate variable of its
+                # own.
+                create = True
+
+        if already_in_file and not create:
             ncvar = coord.nc_get_variable("")
             groups = self._groups(seen[id(coord)]["ncvar"])
             if not ncvar.startswith(groups):
